@@ -63,10 +63,15 @@ CFG = dict(
           "Debug/Warn/Error/Fatal; seeded random scripts of <= 9 actions with any code 200..599 incl. repeated WriteHeader; methods "
           "GET/POST/PUT/DELETE/PATCH/HEAD/OPTIONS; direct calls whose context is already cancelled / expired at entry (12 %); a raw TCP client "
           "that half-closes after sending the request (net/http cancels the context, the handler waits for that, then returns / writes / "
-          "panics; 180 requests); matched and unmatched routes; 1..64 requests in flight per batch; "
+          "panics; 180 requests); WriteHeader(n) with an int net/http rejects (1000, 42, -1, 0, 99, 100000, -500, 2^40: net/http panics inside "
+          "the call before anything is sent, so it is a handler panic before any status was written) as the first write, behind header-map-only "
+          "actions, and after a valid status / body / Flush / FlushError / Store helper (where the call is superfluous and ignored), each "
+          "followed by nothing / WriteHeader 200 / a body / a panic, three handlers, both modes, all thresholds for the first-write forms; "
+          "such codes also in the random scripts (8 % of the WriteHeader actions); matched and unmatched routes; 1..64 requests in flight per batch; "
           "non-trivial = distinct (mode, handler, threshold, route, method, script)"),
     trusted_base=[HARNESS_TB, EXTRACT_TB,
-                  "net/http response semantics as written in Model/Relay.v (first WriteHeader wins, implicit 200, no 1xx) and Go's "
+                  "net/http response semantics as written in Model/Relay.v (first WriteHeader wins, implicit 200, no 1xx, a first WriteHeader with a "
+                  "code < 100 or > 999 panics with nothing sent) and Go's "
                   "defer/recover order (LIFO; a panic inside a deferred call still runs the remaining defers)",
                   "decoding of log records in the harness (encoding/json for JSON, a key=value tokenizer with strconv.Unquote for Text, "
                   "positional field splitting for Nano); one Write call = one record (C02)",
@@ -83,6 +88,8 @@ CFG = dict(
                  "Store.Error404/Error500/Redirect/Respond200/RespondJson are read as http.Error / http.Redirect / WriteHeader+Write / "
                  "json.Encoder over Store.W; the harness expands them into WriteHeader + body actions of the model (http.Redirect writes "
                  "its body only for GET without a Content-Type set earlier)",
+                 "a negative int passed to WriteHeader is written as 2000000 - n in the case lines (the model only distinguishes "
+                 "'rejected by net/http'); WriteHeader(0) after a header went out (it resets Status) is outside the model's scope",
                  "status codes 200..599, set at most once for the equality 'REQ_END code = code on the wire' (a second WriteHeader is "
                  "kept by ResponseWriter.Status but ignored by net/http: C15_example_double_header); for such scripts neither the "
                  "specification nor the model comparison constrains the code REQ_END carries",
